@@ -365,6 +365,27 @@ CATALOGUE_PROGRAMS = [
     'text Sign {\n  format("Welcome to the big city of signs")\n}\nscript S {\n  lock\n  msgbox(format("Welcome to the big city of signs"))\n  msgbox(format(ascii"Welcome to the big city of signs"))\n\n  msgbox(format("Welcome to the big city of signs"))\n  release\n}\ntext Sign2 {\n  format("Welcome to the big city of signs")\n}\n',
     # the same command name with and without arguments; the same var leaf with and without value()
     "script Demo {\n  lock\n  waitmovement\n  applymovement(OBJ_EVENT_ID_PLAYER, Demo_Moves)\n  waitmovement(0)\n  fadescreen\n  delay(16)\n  fadescreen(FADE_FROM_BLACK)\n  fadescreen()\n  release\n  end\n}\n",
+    # round 15: reserved words as case values / comparison values / arguments; compound constants next to * / %; an
+    # argument-position AutoVar whose variable is written with several tokens; unconvertible numbers in format()
+    "script S {\n  switch (var(VAR_RESULT)) {\n    case TRUE: yes()\n    case FALSE:\n      no()\n    case value: v case local: l case global: g case format: f case true: t case moves: m case poryswitch: p case end: e\n    default: other()\n  }\n  after()\n}\n",
+    "script S { if (var(VAR_A) == TRUE) { a } elif (var(VAR_A) != FALSE || flag(FLAG_X) == false) { b } setvar(VAR_B, TRUE) c(value, local, global, format, const) }\nmapscripts M { T [ VAR_T, TRUE: L  VAR_U, FALSE { x } ] }\n",
+    "const BASE = 10\nconst STRIDE = BASE + 2\nconst AREA = STRIDE * 2\nconst Q = 3 % STRIDE / STRIDE\nscript Demo {\n  setvar(VAR_0x8002, STRIDE * 3)\n  addvar(VAR_0x8003, 2 * STRIDE, STRIDE)\n  x(STRIDE / 2, 7 % STRIDE, AREA, Q)\n  if (var(VAR_C) == 3 * STRIDE - 1) { a }\n  switch (var(VAR_D)) { case AREA: b case STRIDE * 3: c }\n}\nmart M { AREA }\n",
+    "script S {\n  if (flag(FLAG_A) && specialvar(VAR_OBJ_GFX_ID_0 + 1, GetThing) == 2) { hit }\n  switch (specialvar(VAR_OBJ_GFX_ID_0 + 1, GetThing)) { case 1: a }\n  while (specialvar((VAR_X), GetThing) != 0) { b }\n  specialvar(VAR_Z + 2, GetThing)\n}\n",
+    'script Main {\n  msgbox(format("Hello there", 99999999999999999999))\n  msgbox(format("Hello there", numLines=99999999999999999999))\n  msgbox(format("Hello there friend", "1_latin_frlg", 0x))\n}\n',
+    # empty literals of a string type that gets no terminator, inline and in a text poryswitch next to a `_` case
+    'script Demo {\n  lock\n  bufferstring(STR_VAR_1, custom"")\n  msgbox("Hello")\n  msgbox(format(custom"  "))\n  release\n}\ntext Greeting {\n  poryswitch(GAME) {\n    EN: "Hello"\n    RUBY: utf8""\n    _: "Fallback"\n  }\n}\ntext Empty { custom"" }\n',
+    # table rows: label row between inline rows, `{` of an inline row on a later line than its condition
+    "mapscripts MyMap_MapScripts {\n  MAP_SCRIPT_ON_FRAME_TABLE [\n    VAR_TEMP_0, 0 { lock  setvar(VAR_TEMP_0, 1)  release }\n    VAR_TEMP_0, 1: MyMap_OnFrame_Shared\n    VAR_TEMP_0, 2 { lockall  setvar(VAR_TEMP_0, 3)  releaseall }\n    // the body of the next entry opens on a line of its own\n    VAR_TEMP_2, 2\n    {\n      release\n    }\n  ]\n}\nscript MyMap_OnFrame_Shared { end }\n",
+    # a body-less case directly before a mid-switch default with a body; trailing body-less cases with and without a default body, followed by another switch
+    "script MyScript {\n  switch (var(VAR_X)) {\n    case 1:\n    default:\n      isdefault\n    case 2:\n      istwo\n  }\n  after\n}\nscript Two {\n  switch (var(VAR_KIND)) { case 1: first  case 2: }\n  switch (var(VAR_OTHER)) { case 5: five  case 6: six }\n}\nscript Three {\n  lock\n  switch (var(VAR_RESULT)) {\n    case 0:\n      msgbox(\"Zero\")\n    default:\n      msgbox(\"Other\")\n    case 7:\n    case 8:\n  }\n  release\n}\n",
+    # a negated group whose first operand is a negated group, followed by further operands
+    "script Demo { if (!(!(flag(FLAG_A)) && flag(FLAG_B))) { setflag(FLAG_HIT) } if (!(!(flag(FLAG_A)) || flag(FLAG_B) && !(var(VAR_C) == 1))) { x } }\n",
+    # a statement poryswitch nested directly in a selected brace case that so far holds inline movements only
+    "script Main {\n  lock\n  poryswitch(GAME) {\n    RUBY {\n      applymovement(1, moves(walk_up * 2, face_down))\n      poryswitch(V) { DE: msgbox(\"Hallo\")  _: msgbox(\"Hello\") }\n      waitmovement(0)\n    }\n    _: nop\n  }\n  release\n}\n",
+    # an explicit step_end inside the selected case of a list poryswitch, with further steps behind the poryswitch
+    "movement MyMovement {\n  walk_up\n  poryswitch(GAME) {\n    RUBY { walk_left step_end }\n    _ { walk_right }\n  }\n  walk_down\n  walk_down * 3\n}\nscript S { a(moves(face_up poryswitch(GAME) { RUBY { jump_left step_end } _: jump_right } face_down * 2)) }\n",
+    # exported / local text statements whose body is format()
+    'text FormattedDefault { format("Hello there") }\ntext(global) FormattedGlobal { format("Hello again") }\ntext(local) FormattedLocal { format("Bye") }\nscript S { msgbox(format("Hello there")) }\n',
     "script CheckSlot { if (var(VAR_CHOICE) == 0x4000) { a } }\nscript CheckRaw { if (var(VAR_CHOICE) == value(0x4000)) { b } if (var(VAR_SEL) == VAR_TEMP_2 || var(VAR_SEL) == value(VAR_TEMP_2)) { c } }\n",
 ]
 
